@@ -122,6 +122,24 @@ class World:
         self.consumers.append((consumer, cmdib, server))
         return consumer, cmdib
 
+    # ---- SCO worker under harness control (C09 / C10): no worker thread, queued operations run when told to
+    def inline_sco(self):
+        from sdc11073.provider import sco as sco_mod
+        for reg in self.provider._sco_operations_registries.values():  # noqa: SLF001
+            reg.stop_worker()
+            reg._worker = sco_mod._OperationsWorker(reg, reg._set_service, reg._mdib, reg._log_prefix)  # noqa: SLF001
+
+    def run_sco(self):
+        """Process everything that is queued, in this thread, with the real worker loop."""
+        from sdc11073.provider import sco as sco_mod
+        for reg in self.provider._sco_operations_registries.values():  # noqa: SLF001
+            worker = reg._worker  # noqa: SLF001
+            if worker is None or worker.is_alive():
+                continue
+            worker._operations_queue.put('stop_sco')  # noqa: SLF001
+            worker.run()
+            reg._worker = sco_mod._OperationsWorker(reg, reg._set_service, reg._mdib, reg._log_prefix)  # noqa: SLF001
+
     def close(self, send_subscription_end: bool = False):
         if self.closed:
             return
@@ -135,6 +153,9 @@ class World:
             except Exception:  # noqa: BLE001
                 pass
             server.stop()
+        for reg in self.provider._sco_operations_registries.values():  # noqa: SLF001
+            if reg._worker is not None and not reg._worker.is_alive():  # noqa: SLF001  (inline worker, never started)
+                reg._worker = None  # noqa: SLF001
         try:
             self.provider.stop_all(send_subscription_end=send_subscription_end)
         finally:
